@@ -2,6 +2,8 @@
 //! stdin: one JSON case per line; stdout: one JSON result per line with the same "id".
 //!   {"id":..,"op":"gen","idl":"<interface text>"}
 //!       -> {"id":..,"parse_ok":bool,"gen_ok":bool,"code":"<generated module>","err":".."}
+//!   {"id":..,"op":"genmulti","idls":["<interface text>", ..]}
+//!       -> the same for zlink_codegen::generate_interfaces (several interfaces in one module)
 //!   {"id":..,"op":"sweep","names":[..]}
 //!       -> {"id":..,"snake":[..],"pascal":[..]}   the identifiers the generator derives from the
 //!          names when they are used as object field names (heck to_snake_case) and as enum
@@ -17,6 +19,22 @@ fn gen(idl: &str) -> Value {
         Err(e) => return json!({"parse_ok": false, "gen_ok": false, "err": e.to_string()}),
     };
     match std::panic::catch_unwind(|| zlink_codegen::generate_interface(&iface)) {
+        Ok(Ok(code)) => json!({"parse_ok": true, "gen_ok": true, "code": code}),
+        Ok(Err(e)) => json!({"parse_ok": true, "gen_ok": false, "err": e.to_string()}),
+        Err(_) => json!({"parse_ok": true, "gen_ok": false, "err": "panic"}),
+    }
+}
+
+/// Several interfaces generated into ONE module (what a build.rs / the CLI with several files do).
+fn gen_multi(idls: &[String]) -> Value {
+    let mut ifaces = Vec::new();
+    for idl in idls {
+        match Interface::try_from(idl.as_str()) {
+            Ok(i) => ifaces.push(i),
+            Err(e) => return json!({"parse_ok": false, "gen_ok": false, "err": e.to_string()}),
+        }
+    }
+    match std::panic::catch_unwind(|| zlink_codegen::generate_interfaces(&ifaces)) {
         Ok(Ok(code)) => json!({"parse_ok": true, "gen_ok": true, "code": code}),
         Ok(Err(e)) => json!({"parse_ok": true, "gen_ok": false, "err": e.to_string()}),
         Err(_) => json!({"parse_ok": true, "gen_ok": false, "err": "panic"}),
@@ -85,6 +103,15 @@ fn main() {
         let c: Value = serde_json::from_str(&line).unwrap();
         let mut r = match c["op"].as_str().unwrap_or("") {
             "gen" => gen(c["idl"].as_str().unwrap()),
+            "genmulti" => {
+                let idls: Vec<String> = c["idls"]
+                    .as_array()
+                    .unwrap()
+                    .iter()
+                    .map(|v| v.as_str().unwrap().to_string())
+                    .collect();
+                gen_multi(&idls)
+            }
             "sweep" => {
                 let names: Vec<String> = c["names"]
                     .as_array()
